@@ -532,6 +532,44 @@ def pattern_line(fixed: int, g: int, op: dict) -> str:
     return f"builder {fixed} {g} {op['b']} [{enc(op['body'])}]"
 
 
+KW_KEYS = ["producer_name", "doc_string", "producer_version", "domain", "ir_version", "model_version", "opset_version", "io_types"]
+
+
+def gen_overrides(rng: random.Random, maxn: int = 3) -> dict:
+    out = {}
+    for k in rng.sample(KW_KEYS, rng.randint(0, maxn)):
+        if k == "ir_version":
+            out[k] = rng.choice([7, 8, 9, 10])
+        elif k == "opset_version":
+            out[k] = rng.choice([17, 18, 19])
+        elif k == "io_types":
+            out[k] = rng.choice([1, 7, 11])
+        else:
+            out[k] = rng.randint(1, 9)
+    return out
+
+
+def gen_kwseq(rng: random.Random):
+    """functions of one / several decorator objects, a history of to_model_proto(**overrides), a target call"""
+    nd = rng.randint(1, 2)
+    decos = [{k: v for k, v in gen_overrides(rng, 2).items() if k not in ("io_types", "opset_version")} for _ in range(nd)]
+    nf = rng.randint(2, 4)
+    fns = [0] + [rng.randrange(nd) for _ in range(nf - 1)]
+    calls = [[rng.randrange(nf), gen_overrides(rng)] for _ in range(rng.randint(1, 8))]
+    target = [rng.randrange(nf), gen_overrides(rng) if rng.random() < 0.5 else {}]
+    return {"k": "kwseq", "decos": decos, "fns": fns, "calls": calls, "target": target}, "kwseq"
+
+
+def kw_line(op: dict) -> str:
+    kv = lambda d: ";".join(f"{k}={v}" for k, v in d.items())  # noqa: E731
+    refs = ",".join(map(str, op["fns"]))
+    bases = "|".join(f"{j}:{kv(b)}" for j, b in enumerate(op["decos"])) or "-"
+    calls = "/".join(f"{fi}:{kv(o)}" for fi, o in op["calls"]) or "-"
+    ti, to = op["target"]
+    keys = ",".join(k for k in KW_KEYS if k != "opset_version")
+    return f"kw 0 {refs} {bases} {calls} {ti}:{kv(to)} {keys}"
+
+
 def gen_history_op(rng: random.Random, idx: int):
     r = rng.random()
     if r < 0.45:
@@ -539,7 +577,11 @@ def gen_history_op(rng: random.Random, idx: int):
     if r < 0.55:
         return gen_script_bad(rng, f"h{idx}")
     if r < 0.72:
-        return rng.choice([gen_script_if, gen_script_plain, gen_script_globals])(rng, f"h{idx}")
+        o, tg = rng.choice([gen_script_if, gen_script_plain, gen_script_globals])(rng, f"h{idx}")
+        if rng.random() < 0.6:
+            o["proto_overrides"] = gen_overrides(rng) or {"producer_name": 3}
+            tg += "+overrides"
+        return o, tg
     if r < 0.82:
         return gen_pattern_op(rng)
     if r < 0.88:
